@@ -43,6 +43,52 @@ fn execute(case: &(Vec<usize>, Vec<usize>), ctx: &WorkerCtx) -> ExecResult {
     })
 }
 
+/// Frames that share a segment with the handshake acknowledgement (and half of one more frame), read back through
+/// `receive_raw` (mode 0) or through the read half that `take_read_half` hands over (mode 1).
+fn handover_exec(case: &(usize, usize), ctx: &WorkerCtx) -> ExecResult {
+    let (nframes, mode) = *case;
+    run_rt(async move {
+        let mut res = ExecResult::default();
+        let to = vcore::refval::RefVal::Pid { node: "me@127.0.0.1".into(), id: 1, serial: 0, creation: 1 };
+        let bodies: Vec<Vec<u8>> = (0..nframes + 1).map(|i| { let f = crate::procs::send_to(&to, vcore::refval::RefVal::Tuple(vec![vcore::refval::RefVal::atom("early"), vcore::refval::RefVal::int(i as i64)])); f[4..].to_vec() }).collect();
+        let stream: Vec<u8> = bodies.iter().flat_map(|m| frame(m, 4)).collect();
+        let cut = stream.len() - (bodies[nframes].len() + 4) / 2;
+        let mut cw = match crate::c07::conn_world_with(ctx, flags_default(), flags_default(), &stream[..cut]).await { Ok(x) => x, Err(e) => { res.violations.push(("could not establish the connection under a conforming peer".into(), json!({"error": e}))); return res; } };
+        cw.w.gates.set_active(&[]);
+        let got: Arc<Mutex<Vec<Result<Vec<u8>, String>>>> = Arc::new(Mutex::new(vec![]));
+        let g2 = got.clone();
+        let mut conn = cw.conn;
+        let want = nframes + 1;
+        tokio::spawn(async move {
+            if mode == 0 {
+                loop { let r = conn.receive_raw().await; let stop = r.is_err(); g2.lock().unwrap().push(r.map_err(|e| e.to_string())); if stop || g2.lock().unwrap().len() >= want { break; } }
+            } else {
+                let mut rh = conn.take_read_half().expect("read half");
+                loop {
+                    let r = edp_client::Connection::receive_message_from_read_half(&mut rh, std::time::Duration::from_secs(1000)).await;
+                    let stop = r.is_err();
+                    // re-encode what was delivered with the reference writer so that both modes compare bodies
+                    g2.lock().unwrap().push(r.map(|(c, p)| vcore::proto::write_pass_through(&vcore::proto::DistMsg { control: crate::denote::denote(&c.to_term()), payload: p.as_ref().map(crate::denote::denote) })).map_err(|e| e.to_string()));
+                    if stop || g2.lock().unwrap().len() >= want { break; }
+                }
+                drop(conn);
+            }
+        });
+        let probe = { let g = got.clone(); move || g.lock().unwrap().len() as u64 };
+        cw.w.settle(&mut cw.peer, &probe).await;
+        cw.peer.send(&stream[cut..]);
+        cw.w.settle(&mut cw.peer, &probe).await;
+        let all = got.lock().unwrap().clone();
+        let frames: Vec<Vec<u8>> = all.iter().filter_map(|r| r.clone().ok()).collect();
+        if frames != bodies || all.iter().any(|r| r.is_err()) {
+            res.violations.push(("frames coalesced with the handshake acknowledgement were lost, reordered or altered".into(), json!({"frames_with_ack": nframes, "mode": if mode == 0 { "receive_raw" } else { "take_read_half" }, "sent": bodies.len(), "got": frames.len(), "errors": all.iter().filter_map(|r| r.clone().err()).collect::<Vec<_>>()})));
+        }
+        res.steps = 2;
+        res.outcome = format!("handover {} frames", frames.len());
+        res
+    })
+}
+
 pub fn run(rep: &Report) -> Value {
     let thorough = rep.thorough();
     let seqs: Vec<Vec<usize>> = vec![vec![0], vec![1], vec![0, 0], vec![2, 0, 1], vec![1, 3], vec![5], vec![0, 4, 0]];
@@ -53,14 +99,16 @@ pub fn run(rep: &Report) -> Value {
         for a in 1..total { cases.push((s.clone(), vec![a])); for b in (a + 1)..total { if thorough || total <= 10 || (a + b) % 3 == 0 { cases.push((s.clone(), vec![a, b])); } } }
     }
     let st: Stats = for_all(rep, "socket chunkings", &cases, |c, ctx| execute(c, ctx));
+    let hand: Vec<(usize, usize)> = [0usize, 1, 2, 5].iter().flat_map(|&n| [(n, 0usize), (n, 1)]).collect();
+    let st_h: Stats = for_all(rep, "frames coalesced with the handshake acknowledgement", &hand, |c, ctx| handover_exec(c, ctx));
     json!({
-        "states": st.executions,
-        "transitions": st.transitions,
-        "traces_validated_against_impl": st.executions,
+        "states": st.executions + st_h.executions,
+        "transitions": st.transitions + st_h.transitions,
+        "traces_validated_against_impl": st.executions + st_h.executions,
         "samples": [{"message_lengths": [2, 0, 1], "cuts": [3, 9]}, {"message_lengths": [0, 4, 0], "cuts": [1]}],
         "exhaustive": true,
         "distinct_outcomes": st.distinct_outcomes,
         "unstable_failures_not_reported": st.unstable,
-        "rule": "the connection's socket-backed framed reader (receive_raw) fed 7 short frame sequences (ticks, 1..5-byte messages) under every single cut and every pair of cuts of the byte stream (pairs thinned to a third for streams longer than 10 bytes in quick), the peer settling between chunks, then a truncated frame followed by close",
+        "rule": "the connection's socket-backed framed reader (receive_raw) fed 7 short frame sequences (ticks, 1..5-byte messages) under every single cut and every pair of cuts of the byte stream (pairs thinned to a third for streams longer than 10 bytes in quick), the peer settling between chunks, then a truncated frame followed by close; plus 8 executions in which the peer's first 0, 1, 2 or 5 frames and half of one more share a TCP segment with the handshake acknowledgement and are read through receive_raw or through the read half handed over by take_read_half",
     })
 }
